@@ -151,6 +151,10 @@ func Execute(p *plan.Plan) *plan.Result {
 }
 
 func execStream(p *plan.Plan, res *plan.Result) {
+	// stream plans are thousands of independent cases: nothing in their oracles
+	// depends on when the collector runs, so it runs normally (with it off a
+	// thorough plan accumulated garbage up to the memory budget)
+	debug.SetGCPercent(100)
 	for i := range p.Stream {
 		f := &p.Stream[i]
 		viols, cases, sample := runFamily(f)
